@@ -194,6 +194,19 @@ def _parse_all(rec, rc, width, aug, want_leaves, want_extras, fn, args, tag):
         runs.append(('HashMap.parse', lambda: HashMap.parse(cell.begin_parse(), width, None, xd) or {}))
         runs.append(('load_dict', lambda: Builder().store_dict(cell).end_cell().begin_parse().load_dict(width, None, xd) or {}))
         runs.append(('from_cell', lambda: {k: xd(v) for k, v in HashMap.from_cell(cell, width).map.items()} if not rc.special else {}))
+
+        def from_cell_serialize():
+            # whatever (valid, possibly non-canonical or partly pruned) tree a map was read from: serialising the map object gives the
+            # CANONICAL tree of the pairs it holds
+            hm = HashMap.from_cell(cell, width)
+            got = {k: v.copy().load_uint(8) for k, v in hm.map.items()}
+            out = hm.serialize()
+            canon = RH.build({k: RBITS.uint(v, 8) for k, v in got.items()}, width).hash() if got else None
+            if (out.hash if out is not None else None) != canon:
+                raise AssertionError('HashMap.from_cell(tree).serialize() is not the canonical tree of the pairs read')
+            return got
+        if not rc.special:
+            runs.append(('from_cell.serialize', from_cell_serialize))
     else:
         def norm(r):
             if r is None:
